@@ -31,7 +31,7 @@ func init() {
 				"R5: the conversions that feed the servers, the cache and the connection limiter copy each validated setting into the constructor field of the same meaning (a wrong-field copy would put an unvalidated value where a validated one is assumed).",
 			NotCovered: "hazards other than the recognised ones (non-positive quantities, family bounds, division by zero); validation " +
 				"of lists, URLs and cross-references between sections; the environment variables.",
-			Rules: map[string]string{"C20-R25": "validateRateLimitURLs: the environment URL selected by ratelimit.allowlist.type reaches the validator of its kind on every path to a return (an unset one is rejected, not dereferenced by initRateLimiter)", "C20-R26": "remoteKVConfig.validate accepts exactly: backend with a positive ttl, cache, consul with a ttl within [consulkv.MinTTL, consulkv.MaxTTL], redis with a ttl of at least rediskv.MinTTL (a smaller one becomes PX 0, which Redis refuses on every write)", "C20-R24": "connLimitConfig.toInternal: a disabled connection limit yields no limiter and touches nothing else (its thresholds were not validated, so connlimiter.New is not called with them); an enabled one yields the limiter built from stop and resume", "C20-R23": "every switch over check.kv.type that treats an unknown value as a programmer error (panic / ErrBadEnumValue) has a case for every value that remoteKVConfig.validate accepts (backend, cache, consul, redis)", "C20-R22": "a rejected value is reported under its own name: the property name given to newNotPositiveError, newNegativeError, validatePositive and validateProp is the yaml (or env) tag of the field whose value or validator is passed with it", "C20-R21": "every key path of the documented sample configuration config.dist.yaml is named by a yaml tag reachable from cmd.configuration (types that decode themselves, foreign types and maps are leaves): no documented setting is silently ignored", "C20-R20": "cmd.Main validates the configuration before anything that is documented to need a valid one (validateFromValidConfig) reads it", "C20-R18": "tlsConfig.validate: an absent section exactly when no server needs TLS; a present one needs at least one certificate, valid certificates and valid wildcards", "C20-R19": "builder.initGRPCMetrics creates the gRPC metrics exactly when profiles, the DNS-check key-value store or the allowlist use the protobuf backend (their clients get the field as an interface value)", "C20-R17": "validateDNSCrypt accepts exactly the configurations with provider name, both keys and one of the two implemented encryption schemes", "C20-R16": "a duration setting for which validation accepts zero reaches context.WithTimeout only behind a comparison with zero (a zero timeout is an expired context, not no timeout)", "C20-R15": "a configuration section whose validate accepts a nil receiver is read only after a nil test (receiver in its own methods, loaded pointer elsewhere in cmd)", "C20-R14": "allocations sized by a configuration setting: the setting has an upper bound in validation (known findings: the rate-limit counts and the TCP pipeline count have none)", "C20-RC": "class rules (error chains, shadowed results, character classes, crossed arguments, pool constructors, array pools, loop completeness, loop-carried buffers, replacing setters, complete clones, Grow arithmetic, pooled-buffer escape, sorted searches, fresh decode targets, per-iteration objects, whole-message copies, codec guards) over the packages this property rests on", "C20-R13": "server.bindData: interface bindings without an interface-listener manager are rejected with an error", "C20-R12": "cacheConfig.toInternal: cache type none exactly when size is 0; dnssvc.newListenConfig wraps a listen configuration with the connection limiter only when there is one", "C20-R11": "newServerDNS accepts exactly the documented idle-timeout interval [0, MaxTCPIdleTimeout] (interval derived from the edges into the panic)", "C20-R1": "zero / negative rejection of every numeric setting", "C20-R2": "subnet key length family bounds",
+			Rules: map[string]string{"C20-R27": "serverProto.needsTLS is true exactly for https, quic and tls: a group with only DoQ servers is not accepted without certificates, and not rejected with them", "C20-R25": "validateRateLimitURLs: the environment URL selected by ratelimit.allowlist.type reaches the validator of its kind on every path to a return (an unset one is rejected, not dereferenced by initRateLimiter)", "C20-R26": "remoteKVConfig.validate accepts exactly: backend with a positive ttl, cache, consul with a ttl within [consulkv.MinTTL, consulkv.MaxTTL], redis with a ttl of at least rediskv.MinTTL (a smaller one becomes PX 0, which Redis refuses on every write)", "C20-R24": "connLimitConfig.toInternal: a disabled connection limit yields no limiter and touches nothing else (its thresholds were not validated, so connlimiter.New is not called with them); an enabled one yields the limiter built from stop and resume", "C20-R23": "every switch over check.kv.type that treats an unknown value as a programmer error (panic / ErrBadEnumValue) has a case for every value that remoteKVConfig.validate accepts (backend, cache, consul, redis)", "C20-R22": "a rejected value is reported under its own name: the property name given to newNotPositiveError, newNegativeError, validatePositive and validateProp is the yaml (or env) tag of the field whose value or validator is passed with it", "C20-R21": "every key path of the documented sample configuration config.dist.yaml is named by a yaml tag reachable from cmd.configuration (types that decode themselves, foreign types and maps are leaves): no documented setting is silently ignored", "C20-R20": "cmd.Main validates the configuration before anything that is documented to need a valid one (validateFromValidConfig) reads it", "C20-R18": "tlsConfig.validate: an absent section exactly when no server needs TLS; a present one needs at least one certificate, valid certificates and valid wildcards", "C20-R19": "builder.initGRPCMetrics creates the gRPC metrics exactly when profiles, the DNS-check key-value store or the allowlist use the protobuf backend (their clients get the field as an interface value)", "C20-R17": "validateDNSCrypt accepts exactly the configurations with provider name, both keys and one of the two implemented encryption schemes", "C20-R16": "a duration setting for which validation accepts zero reaches context.WithTimeout only behind a comparison with zero (a zero timeout is an expired context, not no timeout)", "C20-R15": "a configuration section whose validate accepts a nil receiver is read only after a nil test (receiver in its own methods, loaded pointer elsewhere in cmd)", "C20-R14": "allocations sized by a configuration setting: the setting has an upper bound in validation (known findings: the rate-limit counts and the TCP pipeline count have none)", "C20-RC": "class rules (error chains, shadowed results, character classes, crossed arguments, pool constructors, array pools, loop completeness, loop-carried buffers, replacing setters, complete clones, Grow arithmetic, pooled-buffer escape, sorted searches, fresh decode targets, per-iteration objects, whole-message copies, codec guards) over the packages this property rests on", "C20-R13": "server.bindData: interface bindings without an interface-listener manager are rejected with an error", "C20-R12": "cacheConfig.toInternal: cache type none exactly when size is 0; dnssvc.newListenConfig wraps a listen configuration with the connection limiter only when there is one", "C20-R11": "newServerDNS accepts exactly the documented idle-timeout interval [0, MaxTCPIdleTimeout] (interval derived from the edges into the panic)", "C20-R1": "zero / negative rejection of every numeric setting", "C20-R2": "subnet key length family bounds",
 				"C20-R3": "section table completeness", "C20-R4": "divisor provenance", "C20-R5": "validated settings are copied into the constructor fields of the same meaning",
 				"C20-R8": "builder flags computed over all server groups accumulate (a later group cannot switch off what an earlier group needs, e.g. the profile database)",
 				"C20-R6": "DDR record validation: DoH port needs a path, hints must be of their address family"},
@@ -181,6 +181,8 @@ var c20Skip = map[string]string{
 }
 
 func runC20(c *an.Ctx) {
+	c.Floor("C20-R27", 1)
+	c20NeedsTLS(c, "C20-R27")
 	// ---- R24: a disabled connection limit is not constructed
 	c.Floor("C20-R24", 1)
 	decide(c, "C20-R24", "cmd.(*connLimitConfig).toInternal", an.DecideCfg{
